@@ -120,6 +120,7 @@ func ruleVD8(c *Ctx) {
 							continue
 						}
 						for _, bf := range branchFacts(f) {
+							curEnv = bf.A.Env
 							if bf.E.To() == st.Block() || bf.E.To().Dominates(st.Block()) {
 								if len(bf.E.To().Preds) == 1 {
 									// the same condition must also be what skips the guard: accept edges on the same atom
